@@ -38,6 +38,7 @@ func propC12(c *Ctx) propInfo {
 		"(*liteclient.Connection).handleAuthResponse":        "publishes Connected after authentication",
 	})
 	c.requestProtocol()
+	c.reconnectRetry()
 	c.floor("E9.K1-guarded-by", 20)
 	c.floor("E9.K2-pairing", 10)
 	c.floor("E9.K5-request-protocol", 8)
@@ -279,4 +280,71 @@ func touchesMap(f *ssa.Function, field string, insert bool) bool {
 		}
 	})
 	return found
+}
+
+// reconnectRetry (K9): the reconnect loop retries until an attempt succeeds and every attempt has
+// its own deadline: the context given to setupEncryptedConnection inside the loop is either the
+// background context or a deadline context created inside the loop. A deadline created once before
+// the loop expires during a long outage and makes every later attempt fail at once, for ever.
+func (c *Ctx) reconnectRetry() {
+	const R = "E9.K9-reconnect-retry"
+	f := c.mustFn(R, "liteclient", "Connection.reconnect")
+	if f == nil {
+		return
+	}
+	calls := callsTo(f, modPath+"/liteclient.Connection.setupEncryptedConnection")
+	if len(calls) != 1 || !inLoop(calls[0].Block()) {
+		c.bad(R, "reconnect retries setupEncryptedConnection in a loop", f.Pos(), fmt.Sprintf("reconnect has %d setupEncryptedConnection call(s) in a retry loop; the confirmed shape is one call inside a loop", len(calls)))
+		return
+	}
+	cl := calls[0]
+	okCtx := true
+	why := ""
+	derivesFrom(cl.Call.Args[1], func(v ssa.Value) bool {
+		c2 := callOf(v)
+		if c2 == nil {
+			return false
+		}
+		switch callQName(&c2.Call) {
+		case "context.WithTimeout", "context.WithDeadline", "context.WithTimeoutCause", "context.WithDeadlineCause":
+			if !inLoop(c2.Block()) {
+				okCtx = false
+				why = "the context passed to every attempt is a deadline context created once at " + c.rel(c2.Pos()) + " before the loop"
+			}
+		}
+		return false
+	}, true)
+	c.check(okCtx, R, "every reconnect attempt has its own deadline", cl.Pos(), "context.Background() or a deadline created inside the loop", "reconnect: "+why+": after that deadline every dial fails immediately and the connection never leaves Connecting")
+	// the loop is left only after a successful attempt: every edge out of the loop is the nil-error edge of the call
+	okExit := true
+	nExit := 0
+	for _, b := range f.Blocks {
+		if !inLoop(b) {
+			continue
+		}
+		for i, s := range b.Succs {
+			if inLoop(s) {
+				continue
+			}
+			nExit++
+			iff := lastIf(b)
+			good := false
+			if iff != nil {
+				if isNil, eq := nilTest(iff.Cond, nil); isNil {
+					_ = eq
+				}
+				if bo, ok := iff.Cond.(*ssa.BinOp); ok && isNilConst(bo.Y) && derivesFrom(bo.X, func(v ssa.Value) bool { return v == ssa.Value(cl) }, false) {
+					// err != nil: exit must be the false edge; err == nil: the true edge
+					if (bo.Op == token.NEQ && i == 1) || (bo.Op == token.EQL && i == 0) {
+						good = true
+					}
+				}
+			}
+			if !good {
+				okExit = false
+			}
+		}
+	}
+	c.check(okExit && nExit == 1, R, "the reconnect loop ends only with a successful attempt", f.Pos(), "single exit: err == nil", fmt.Sprintf("reconnect's retry loop has %d exit edge(s), not only the successful-attempt edge: the client can give up reconnecting", nExit))
+	c.floor(R, 2)
 }
